@@ -241,7 +241,11 @@ func writeCompoundOpInfix(w io.Writer, c Compound, opts *WriteOptions, env *Env,
 func writeCompoundFunctionalNotation(w io.Writer, c Compound, opts *WriteOptions, env *Env) error {
 	ew := errWriter{w: w}
 	opts = opts.withRight(operator{})
-	_ = c.Functor().WriteTerm(&ew, opts, env)
+	// The functor is not an operand. Even if it's an operator, it takes no brackets; it only has to be kept apart
+	// from an operator on its left, e.g. 1- +(a,b,c).
+	fopts := *opts
+	fopts.ops = nil
+	_ = c.Functor().WriteTerm(&ew, &fopts, env)
 	_, _ = fmt.Fprint(&ew, "(")
 	opts = opts.withLeft(operator{}).withPriority(999)
 	opts.maxDepth--
